@@ -77,9 +77,16 @@ static std::pair<float, Solution> findRoot(
         for (float step = r / slope; true; step /= 2)
         {
             // A non-finite step (NaN gradient, infinite residual) can
-            // never satisfy any exit condition below: give up here
-            if (!std::isfinite(step))
+            // never satisfy any exit condition below, and a step that has
+            // underflowed to zero cannot move the point any more (but can
+            // still flip the sign of a zero, so the residual need not match):
+            // give up here, leaving the evaluator at the current assignment
+            if (!std::isfinite(step) || step == 0)
             {
+                for (auto& v : vars)
+                {
+                    e.setVar(v.first, v.second);
+                }
                 converged = true;
                 break;
             }
